@@ -4,6 +4,7 @@ import (
 	"encoding/json"
 	"errors"
 	"fmt"
+	"strconv"
 	"strings"
 
 	"github.com/freeconf/yang/fc"
@@ -192,8 +193,11 @@ func keyPlain(v val.Value) string {
 	switch x := v.(type) {
 	case val.Enum:
 		return x.Label
+	case val.Decimal64:
+		// any lexical form of the number will do, this one differs from the canonical one
+		return strconv.FormatFloat(float64(x), 'f', 6, 64)
 	}
-	return v.String()
+	return model.Lex(v)
 }
 
 func renderSegs(segs []c08Seg, module string) string {
